@@ -448,8 +448,8 @@ func ExecReader(data any, selector string) (any, error) {
 	// different selector to the map at any time
 	verifCache("read", selector)
 	parsed := cache[selector]
-	mut.Unlock()
 	verifCache("unlock", selector)
+	mut.Unlock()
 	result := data
 	for _, item := range parsed {
 		rs, err := ReaderExecutor(result, item)
